@@ -42,6 +42,7 @@ REQUIRED = ['ortho_ecf_inverse', 'ecfToOrtho_orthoToEcf', 'orthoToEcf_ecfToOrtho
             'tiles_flatten', 'orthoBlocks_tiles', 'block_tiling_independent', 'block_sizes_agree']
 
 KEY_NN = 'nearest-neighbour:digitize-not-nearest'
+FIT_PX = 1.0          # a fitted (rational polynomial) projection helper is decided to within one source pixel
 KEY_THIN = 'block-iteration:thin-block-pixel-bounds-refused'
 TOL_M = 1e-6          # metres, model vs sarpy plane maps (rounding noise ~1e-9)
 TOL_PX = 1e-7         # ortho pixels
@@ -208,13 +209,17 @@ def fetchers():
     return _FETCHERS
 
 
-def create_product(sc, pcfg, version, bcfg, bounds, pad, depth, tmp, name='prod.nitf'):
+def create_product(sc, pcfg, version, bcfg, bounds, pad, depth, tmp, name='prod.nitf', oh_factory=None):
     """runs create_detected_image_sidd and reopens the product.  Exceptions propagate to the caller."""
     from sarpy.processing.ortho_rectify import NearestNeighborMethod
     from sarpy.processing.sidd import sidd_product_creation as spc
     from sarpy.io.product.converter import open_product
-    ph = make_proj(sc, pcfg)
-    oh = NearestNeighborMethod(sc.reader, index=getattr(sc, 'index', 0), proj_helper=ph, pad_value=pad)
+    if oh_factory is not None:
+        oh = oh_factory()
+        ph = oh.proj_helper
+    else:
+        ph = make_proj(sc, pcfg)
+        oh = NearestNeighborMethod(sc.reader, index=getattr(sc, 'index', 0), proj_helper=ph, pad_value=pad)
     remap = make_remap(depth, sc)
     path = os.path.join(tmp, name)
     if os.path.exists(path):
@@ -322,6 +327,21 @@ def check_product(sc, prod, case, fail, stats, disagree):
     mesh = numpy.stack([ii + int(round(b0)), jj + int(round(b2))], axis=2)
     pix3 = ph.ortho_to_pixel(mesh).reshape((-1, 2))
     ok3 = numpy.isfinite(pix3).all(axis=1) & both
+    fitted = type(ph).__name__ != 'PGProjection'
+    if fitted:
+        # a fitted projection (rational polynomials) approximates the exact maps over the image it was fitted over and extrapolates beyond it:
+        # the property is decided to within ONE source pixel for such a helper (FIT_PX), from the metadata alone
+        hull3 = ok3 & (x >= 0) & (x <= sc.rows - 1) & (y >= 0) & (y <= sc.cols - 1)
+        far = ok3 & ~hull3
+        if far.any():
+            stats['fitted_projection_extrapolation_px_max'] = max(stats.get('fitted_projection_extrapolation_px_max', 0.0), float(numpy.abs(pix3[far] - pix[far]).max()))
+        if hull3.any():
+            d3 = float(numpy.abs(pix3[hull3] - pix[hull3]).max())
+            stats['fitted_projection_vs_metadata_px_max'] = max(stats.get('fitted_projection_vs_metadata_px_max', 0.0), d3)
+            if d3 >= FIT_PX:
+                disagree('ortho_to_pixel', f'{type(ph).__name__}.ortho_to_pixel differs from the route through the product metadata by {d3:.3e} px inside the source image '
+                         f'(accepted for a fitted projection: {FIT_PX} px)', case)
+        ok3 = ok3 & False
     if ok3.any():
         d3 = float(numpy.abs(pix3[ok3] - pix[ok3]).max())
         stats['code_vs_metadata_px_max'] = max(stats.get('code_vs_metadata_px_max', 0.0), d3)
@@ -338,6 +358,26 @@ def check_product(sc, prod, case, fail, stats, disagree):
     nrc = numpy.clip(nr, 0, sc.rows - 1)
     ncc = numpy.clip(nc, 0, sc.cols - 1)
     want = remapped[nrc, ncc].astype('int64')
+    if fitted:
+        near_ok = numpy.zeros(v.shape, dtype=bool)
+        for dr_ in (-1, 0, 1):
+            for dc_ in (-1, 0, 1):
+                near_ok |= v == remapped[numpy.clip(nr + dr_, 0, sc.rows - 1), numpy.clip(nc + dc_, 0, sc.cols - 1)].astype('int64')
+        fin_ = numpy.isfinite(x) & numpy.isfinite(y)
+        deep = fin_ & (x >= 1) & (x <= sc.rows - 2) & (y >= 1) & (y <= sc.cols - 2)
+        far_out = ~fin_ | (x < -1.5) | (x > sc.rows + 0.5) | (y < -1.5) | (y > sc.cols + 0.5)
+        stats['fitted_pixels_inside'] = stats.get('fitted_pixels_inside', 0) + int(deep.sum())
+        stats['fitted_pixels_outside'] = stats.get('fitted_pixels_outside', 0) + int(far_out.sum())
+        for nm_, sel_, key_ in (('more than one pixel inside the source hold no source pixel within one pixel of the nearest', deep & ~near_ok, 'resample:wrong-pixel'),
+                                ('more than 1.5 pixels outside the source do not hold the fill value', far_out & (v != fill), 'resample:value-outside-source'),
+                                ('at the edge of the source hold neither the fill value nor a source pixel within one pixel of the nearest', ~deep & ~far_out & ~near_ok & (v != fill),
+                                 'resample:rim-wrong-pixel')):
+            if sel_.any():
+                k = int(numpy.nonzero(sel_)[0][0])
+                info = {'product_pixel': [int(pts[k, 0]), int(pts[k, 1])], 'source_coordinate': [float(x[k]), float(y[k])], 'nearest_source_pixel': [int(nr[k]), int(nc[k])],
+                        'expected_value': int(want[k]), 'product_value': int(v[k]), 'fill_value': fill}
+                fail(key_, f'{int(sel_.sum())} product pixels {nm_} (fitted projection {type(ph).__name__}, decided to within {FIT_PX} px): e.g. {json.dumps(info)}', dict(case, pixel=info))
+        return int((deep | far_out).sum())
     inside, outside, rim = cls == 1, cls == 2, cls == 3
     stats['pixels_inside'] = stats.get('pixels_inside', 0) + int(inside.sum())
     stats['pixels_outside'] = stats.get('pixels_outside', 0) + int(outside.sum())
@@ -682,6 +722,42 @@ def run(tier):
                     fail('blocks:product-differs', f'default ortho helper: the product of block configuration {case["block"]} differs from that of {outs[0][0]["block"]}', case)
             stats['area_plane_products'] = len(outs)
 
+        # the default helper (rational-polynomial projection) with its spacings re-assigned after construction and the fit repeated
+        # (the sequence kmz_product_creation uses to coarsen the grid): the product must follow the spacings its metadata declares.
+        # The rational functions are fits: such products are decided to within one source pixel (FIT_PX, see check_product).
+        for scr in [q for q in scenes if not q.cfg.get('no_area')][:2] + [q for q in scenes if q.cfg.get('no_area')][:1]:
+            for refit in (False, True):
+                fac = [rng.choice([1.0, 1.7, 2.3]), rng.choice([1.0, 0.6, 1.9])] if refit else [1.0, 1.0]
+                holder = {}
+
+                def factory(scr=scr, fac=fac, refit=refit, holder=holder):
+                    oh_r = _NN(scr.reader, index=0, pad_value=None)
+                    ph_r = oh_r.proj_helper
+                    holder['type'] = type(ph_r).__name__
+                    if refit:
+                        ph_r.row_spacing = ph_r.row_spacing * fac[0]
+                        ph_r.col_spacing = ph_r.col_spacing * fac[1]
+                        if hasattr(ph_r, 'perform_rational_poly_fitting'):
+                            ph_r.perform_rational_poly_fitting()
+                    holder['spacing'] = [float(ph_r.row_spacing), float(ph_r.col_spacing)]
+                    return oh_r
+                case = {'scene': scr.cfg, 'geometry': 'default-helper-refit' if refit else 'default-helper', 'spacing_factors': fac, 'version': 3,
+                        'block': {'mode': 'api', 'block_size': 10, 'dimension': 0}, 'bounds': None, 'depth': 16, 'pad': None, 'proj': 'default helper'}
+                products += 1
+                try:
+                    prod = create_product(scr, None, 3, case['block'], None, None, 16, tmp, name='ratpoly.nitf', oh_factory=factory)
+                except Exception as ex:
+                    fail('create:raises:' + type(ex).__name__, f'create_detected_image_sidd with the default helper{" after re-assigned spacings and a repeated fit" if refit else ""} '
+                                                               f'raised {type(ex).__name__}: {ex}', dict(case, traceback=traceback.format_exc()[-1500:]))
+                    continue
+                case['helper'] = holder.get('type')
+                feats.add(('default-helper', holder.get('type'), refit))
+                pl_r = sidd_plane(prod['sidd'])
+                if holder.get('spacing') and not (abs(pl_r['ss'][0] - holder['spacing'][0]) <= 1e-9 and abs(pl_r['ss'][1] - holder['spacing'][1]) <= 1e-9):
+                    fail('metadata:spacing', f'the product declares sample spacing {list(pl_r["ss"])}, the helper was set to {holder["spacing"]}', case)
+                evaluations += check_product(scr, prod, case, fail, stats, disagree)
+                stats['default_helper_products'] = stats.get('default_helper_products', 0) + 1
+
         # ============================================================ A. correspondence at Float
         sc0 = scenes[0]
         # A1 plane maps of real PGProjection objects
@@ -925,7 +1001,9 @@ def run(tier):
             'by comparing products across block sizes',
             'blocks thinner than the public 0.25 MB floor allows for these image sizes are produced through a subclass of FullResolutionFetcher that removes the floor; '
             'one larger scene is split by the unmodified API',
-            'the rational-polynomial projection (PGRatPolyProjection) and DEM projection are not covered',
+            'the rational-polynomial projection (PGRatPolyProjection, the default helper) is covered by whole products only (as created, and after re-assigned '
+            'spacings with a repeated fit) and decided to within ONE source pixel because the rational functions are fits (inside: a source pixel within one pixel of the '
+            'nearest; more than 1.5 pixels outside: fill); the DEM projection is not covered',
             'code_not_nearest: the unchanged NearestNeighborMethod is proved (on the model) and observed (on the products) NOT to select the nearest pixel',
         ]
     finally:
